@@ -106,11 +106,20 @@ func init() {
 		if pu := p.Func("pruner", "Pruner", "pruneUpto"); pu == nil {
 			c.und("floor-first", "Pruner.pruneUpto", "", "anchor not found")
 		} else {
-			raise := findSite(pu, "raiseTo")
+			// the raise may sit in a same-package helper (with the bound == 0 guard moved along)
+			var raiseDS *deepSite
+			if dss := p.deepSites(pu, nameMatcher("raiseTo"), 2); len(dss) > 0 {
+				raiseDS = &dss[0]
+			}
 			prune := findSite(pu, "PruneUpto")
-			if raise == nil || prune == nil {
+			if raiseDS == nil || prune == nil {
 				c.viol("floor-first", "(*pruner.Pruner).pruneUpto", p.Pos(fnPos(pu)), "pruneUpto does not both raise the retention floor and call PruneUpto")
 			} else {
+				raise := &raiseDS.Site
+				outer := raise
+				if len(raiseDS.Chain) > 0 {
+					outer = &raiseDS.Chain[0]
+				}
 				// edges on which the bound is 0 (nothing below it exists) may skip the raise
 				skip := map[[2]int]bool{}
 				for _, b := range pu.Blocks {
@@ -121,12 +130,30 @@ func init() {
 						}
 					}
 				}
-				bypass := reachableAvoiding(pu, prune.Block(), raise.Block(), skip) && raise.Block() != prune.Block()
-				argOK := len(raise.Args()) >= 2 && len(prune.Args()) > 2 && term(raise.Args()[1]) == "("+term(prune.Args()[2])+" - 1)"
-				c.check(!bypass && dominatesOrSameBefore(raise, prune), "floor-first", "(*pruner.Pruner).pruneUpto:order", p.Pos(prune.Pos()),
+				bypass := reachableAvoiding(pu, prune.Block(), outer.Block(), skip) && outer.Block() != prune.Block()
+				// inside the helper(s): a return that avoids raiseTo is taken only when the bound is 0
+				helperOK := true
+				if len(raiseDS.Chain) > 0 {
+					h := raise.Instr.Parent()
+					for _, r := range returnsOf(h) {
+						if dominatesInstr(raise.Instr, r.Ret) {
+							continue
+						}
+						d := p.mustHoldAt(r.Ret)
+						if o, _ := everyDisjunctHas(d, []string{" == 0)"}, []string{"^!", " > 0)"}); !o || len(d) == 0 {
+							helperOK = false
+						}
+					}
+				}
+				rt := ""
+				if len(raise.Args()) >= 2 {
+					rt = substTermChain(term(raise.Args()[1]), raiseDS.Chain)
+				}
+				argOK := len(prune.Args()) > 2 && rt == "("+term(prune.Args()[2])+" - 1)"
+				c.check(!bypass && helperOK && dominatesOrSameBefore(outer, prune), "floor-first", "(*pruner.Pruner).pruneUpto:order", p.Pos(prune.Pos()),
 					"raiseTo is on every path to PruneUpto (except bound == 0)", "PruneUpto can be reached without raising the retention floor first: readers could open a state whose history is being deleted")
 				c.check(argOK, "floor-first", "(*pruner.Pruner).pruneUpto:bound", p.Pos(raise.Pos()),
-					"floor raised to bound−1 for PruneUpto(bound)", "the floor is not raised to (prune bound − 1): "+fmt.Sprint(termsOf(raise.Args()))+" vs "+fmt.Sprint(termsOf(prune.Args())))
+					"floor raised to bound−1 for PruneUpto(bound)", "the floor is not raised to (prune bound − 1): "+rt+" vs "+fmt.Sprint(termsOf(prune.Args())))
 			}
 		}
 		c.floor("floor-first", 2)
@@ -284,13 +311,10 @@ func c16FloorTerms(c *Ctx) {
 				miss = strings.Join(want, "…")
 			}
 		}
-		// the bound may be computed by a same-package helper: every value it can return must have the expected form
-		bts := termInlAll(site.Args()[2], false)
-		bt := strings.Join(bts, " | ")
-		okb := true
-		for _, t := range bts {
-			okb = okb && strings.Contains(t, sp.bound)
-		}
+		// the bound is the block-count floor (head − retained), possibly lowered by min(…) — directly, through a φ, a
+		// local, or a same-package helper that returns its floor parameter or min(…, parameter)
+		bt := term(site.Args()[2])
+		okb := c16BoundOK(site.Args()[2], sp.bound, 0)
 		c.check(miss == "" && okb, "floor-terms", "(*pruner.Pruner)."+sp.fn, p.Pos(site.Pos()), sp.reason,
 			fmt.Sprintf("prune bound/guards changed: missing guard %q or bound %s lacks %q; facts: %s", miss, bt, sp.bound, strings.Join(fs, "; ")))
 	}
@@ -319,7 +343,8 @@ func c16FloorTerms(c *Ctx) {
 		}
 		c.check(ok, "floor-terms", "(*pruner.Pruner).applyTimeFloor", p.Pos(fnPos(fn)), "returns standardFloor or min(…, standardFloor)", "applyTimeFloor can return a bound above the block-count floor: retained-by-count blocks would be pruned")
 	} else {
-		c.und("floor-terms", "Pruner.applyTimeFloor", "", "anchor not found")
+		// the helper was inlined: the shape of the bound is decided at the two call sites above (c16BoundOK)
+		c.ok("floor-terms", "(*pruner.Pruner).applyTimeFloor", "", "no such helper; the time floor is applied inline and checked at the prune sites")
 	}
 	// one-shot migration: pivot = min(L1 head, chain height)
 	if fn := p.Func("migration/historyprunner", "Migrator", "Migrate"); fn != nil {
@@ -524,8 +549,14 @@ func c16MarkerWithHistory(c *Ctx) {
 		return
 	}
 	c.saw(qname(f))
+	// sites of the function and of its local closures (a "delete the marker, then write" closure shared by the commits)
+	var allSites []Site
+	inClosure := false
+	for _, g := range withAnons(f) {
+		allSites = append(allSites, sitesOf(g)...)
+	}
 	var marks []Site
-	for _, s := range sitesOf(f) {
+	for _, s := range allSites {
 		if (s.Callee != nil && s.Callee.Name() == "DeleteRange" || s.Method != nil && s.Method.Name() == "DeleteRange") {
 			all := ""
 			for _, a := range s.Args() {
@@ -540,13 +571,19 @@ func c16MarkerWithHistory(c *Ctx) {
 		}
 	}
 	n := 0
-	for _, s := range sitesOf(f) {
+	for _, s := range allSites {
 		if !(s.Method != nil && s.Method.Name() == "Write" && strings.HasSuffix(typeShort(s.Recv.Type()), "db.Batch")) {
 			continue
 		}
 		n++
+		if s.Instr.Parent() != f {
+			inClosure = true
+		}
 		ok := false
 		for _, m := range marks {
+			if m.Instr.Parent() != s.Instr.Parent() {
+				continue
+			}
 			if dominatesInstr(m.Instr, s.Instr) && m.Block() == s.Block() || dominatesInstr(m.Instr, s.Instr) && !inSameLoop(m.Block(), m.Block()) && !inSameLoop(s.Block(), s.Block()) {
 				ok = true
 			}
@@ -557,7 +594,7 @@ func c16MarkerWithHistory(c *Ctx) {
 		}
 		c.check(ok, "marker-with-history", fmt.Sprintf("pruneHashKeyedUpto: batch commit #%d", n), p.Pos(s.Pos()), "the commit also range-deletes the block commitments of the blocks processed so far", "a batch of the sweep is committed without deleting the block commitments of the blocks whose history it removes: after a crash the floor re-derived from the commitments admits state queries for blocks whose history is already gone")
 	}
-	if n < 2 {
+	if n < 2 && !(inClosure && n == 1) {
 		c.und("marker-with-history", "pruneHashKeyedUpto", p.Pos(fnPos(f)), fmt.Sprintf("only %d batch commits found", n))
 	}
 }
@@ -620,4 +657,146 @@ func c16BloomWindowAndScratch(c *Ctx) {
 	if n == 0 {
 		c.und("scratch-wiped-last", "wipeScratchSpace callers", "", "no caller found")
 	}
+}
+
+
+// c16BoundOK: v never exceeds the block-count floor: it is `X − retained` (term contains want), min(…) of such a value, a
+// φ / local of such values, or the result of a same-package helper that returns its floor parameter or min(…, parameter).
+func c16BoundOK(v ssa.Value, want string, depth int) bool {
+	if depth > 5 || v == nil {
+		return false
+	}
+	switch x := stripConv(v).(type) {
+	case *ssa.BinOp:
+		return x.Op == token.SUB && strings.Contains(term(x), want)
+	case *ssa.Phi:
+		for _, e := range x.Edges {
+			if !c16BoundOK(e, want, depth+1) {
+				return false
+			}
+		}
+		return len(x.Edges) > 0
+	case *ssa.UnOp:
+		if a, ok := x.X.(*ssa.Alloc); ok && x.Op == token.MUL && a.Referrers() != nil {
+			n := 0
+			for _, r := range *a.Referrers() {
+				if st, ok := r.(*ssa.Store); ok && st.Addr == ssa.Value(a) {
+					n++
+					if !c16BoundOK(st.Val, want, depth+1) {
+						return false
+					}
+				}
+			}
+			return n > 0
+		}
+	case *ssa.Call:
+		if b, ok := x.Call.Value.(*ssa.Builtin); ok && b.Name() == "min" {
+			for _, a := range x.Call.Args {
+				if c16BoundOK(a, want, depth+1) {
+					return true
+				}
+			}
+			return false
+		}
+		g := x.Call.StaticCallee()
+		if g == nil || len(g.Blocks) == 0 || x.Parent() == nil || pkgRelOf(g) != pkgRelOf(x.Parent()) {
+			return false
+		}
+		rets := returnsOf(g)
+		for _, r := range rets {
+			if len(r.Results) != 1 || !c16RetOK(r.Results[0], g, x.Call.Args, want, depth+1) {
+				return false
+			}
+		}
+		return len(rets) > 0
+	}
+	return false
+}
+
+func c16RetOK(rv ssa.Value, g *ssa.Function, args []ssa.Value, want string, depth int) bool {
+	if depth > 6 {
+		return false
+	}
+	argOf := func(v ssa.Value) ssa.Value {
+		for k, prm := range g.Params {
+			if ssa.Value(prm) == v && k < len(args) {
+				return args[k]
+			}
+		}
+		return nil
+	}
+	switch y := stripConv(rv).(type) {
+	case *ssa.Parameter:
+		return c16BoundOK(argOf(y), want, depth+1)
+	case *ssa.Phi:
+		for _, e := range y.Edges {
+			if !c16RetOK(e, g, args, want, depth+1) {
+				return false
+			}
+		}
+		return len(y.Edges) > 0
+	case *ssa.Call:
+		if b, ok := y.Call.Value.(*ssa.Builtin); ok && b.Name() == "min" {
+			for _, a := range y.Call.Args {
+				if c16RetOK(a, g, args, want, depth+1) {
+					return true
+				}
+			}
+			return false
+		}
+		// a nested helper: its arguments are expressed in g's parameters
+		h := y.Call.StaticCallee()
+		if h == nil || len(h.Blocks) == 0 || pkgRelOf(h) != pkgRelOf(g) {
+			return false
+		}
+		for _, r := range returnsOf(h) {
+			if len(r.Results) != 1 {
+				return false
+			}
+			switch z := stripConv(r.Results[0]).(type) {
+			case *ssa.Parameter:
+				ok := false
+				for k, prm := range h.Params {
+					if prm == z && k < len(y.Call.Args) && c16RetOK(y.Call.Args[k], g, args, want, depth+1) {
+						ok = true
+					}
+				}
+				if !ok {
+					return false
+				}
+			case *ssa.Call:
+				b, isB := z.Call.Value.(*ssa.Builtin)
+				if !isB || b.Name() != "min" {
+					return false
+				}
+				ok := false
+				for _, a := range z.Call.Args {
+					if prm, isP := a.(*ssa.Parameter); isP {
+						for k, q := range h.Params {
+							if q == prm && k < len(y.Call.Args) && c16RetOK(y.Call.Args[k], g, args, want, depth+1) {
+								ok = true
+							}
+						}
+					}
+				}
+				if !ok {
+					return false
+				}
+			default:
+				return false
+			}
+		}
+		return true
+	case *ssa.BinOp:
+		// the floor computed inside the helper from its own parameters (head.Number − retained)
+		if y.Op != token.SUB {
+			return false
+		}
+		t := termP(y)
+		for k := len(args) - 1; k >= 0; k-- {
+			t = strings.ReplaceAll(t, fmt.Sprintf("$%d", k), term(args[k]))
+		}
+		return strings.Contains(t, want)
+	}
+	return false
 }
